@@ -137,6 +137,12 @@ func (e *enc) instr(b *ssa.BasicBlock, st *State, ins ssa.Instruction) {
 			e.allocRef[x] = ref
 		}
 		e.vals[x] = []string{ref}
+		if at, isArr := t.Underlying().(*types.Array); isArr && !isHeapScalar(sortOf(at.Elem())) && isLocalTerm(ref) {
+			// local array of aggregates (typically the varargs array of a logging call): its cells are
+			// left unconstrained instead of zeroed -- an over-approximation that avoids three
+			// quantified frames per call
+			return
+		}
 		e.storeValue(st, ref, e.zeroOf(t), t)
 	case *ssa.Store:
 		if a, ok := x.Addr.(*ssa.Alloc); ok && e.scalar[a] {
@@ -645,8 +651,7 @@ func (e *enc) makeSlice(st *State, x *ssa.MakeSlice) {
 	if isHeapScalar(es) {
 		old := e.heap(st, es)
 		nw := e.fresh("Mem_"+sortKey(es)+"_mk", "(Array Ref "+es+")")
-		e.assert(fmt.Sprintf("(forall ((r Ref)) (! (= (select %s r) (ite (and ((_ is elem) r) (= (ebase r) %s)) %s (select %s r))) :pattern ((select %s r))))",
-			nw, arr, e.zeroOf(et), old, nw))
+		e.elemUpdate("true", nw, old, fmt.Sprintf("(= qb %s)", arr), e.zeroOf(et))
 		e.setHeap(st, es, old, nw, heapUpd{elems: true})
 	}
 	e.setVal(x, fmt.Sprintf("(mkslice %s 0 %s %s)", arr, ln, cp))
